@@ -2366,6 +2366,10 @@ def BHJM_cylinder_segment(
     r1 = abs(r1)
     r2 = abs(r2)
     h = abs(h)
+    # all lengths in units of the body size, the surface tolerances below are relative to it
+    size = np.maximum(r2, h)
+    size = np.where(size > 0, size, 1.0)
+    r1, r2, h = r1 / size, r2 / size, h / size
     z1, z2 = -h / 2, h / 2
 
     # transform dim deg->rad
@@ -2380,7 +2384,7 @@ def BHJM_cylinder_segment(
     dim = np.array([r1, r2, phi1, phi2, z1, z2]).T
 
     # transform obs_pos to Cy CS --------------------------------------------
-    x, y, z = observers.T
+    x, y, z = observers.T / size
     r, phi = np.sqrt(x**2 + y**2), np.arctan2(y, x)
     pos_obs_cy = np.concatenate(((r,), (phi,), (z,)), axis=0).T
 
